@@ -51,7 +51,9 @@ def cost(prop, tier, run):
 
 
 def det_runs(prop, tier, n):
-  return max(11, n // 3)
+  # determinism across processes is a clause of the property itself: every
+  # run is executed twice (second time under another PYTHONHASHSEED)
+  return n
 
 
 def sig_of(result):
